@@ -84,6 +84,49 @@ def probe_cases(ctx, n, nops):
                       {'config': cfg.key(), 'ops': small, 'probe': probe[:k + 1]})
 
 
+def multi_extent_oracle(ctx):
+    """very large files (2..5 extents of 0xfffff800 bytes; never written, the object graph is inspected): the extents are
+    chained in order, every record but the last carries the multi-extent flag, a hard link sees all of them, and removing the
+    last name releases every record, every inode and all the space"""
+    import io
+    import pycdlib
+    E = 0xfffff800
+    for k, tail in ((2, 5), (3, 0), (3, 77), (4, 4096), (5, 1)):
+        for jol in (None, 3):
+            n = (k - 1) * E + (tail or E)
+            iso = pycdlib.PyCdlib()
+            iso.new(interchange_level=3, joliet=jol)
+            base = iso.pvd.space_size
+            kw = {'joliet_path': '/big'} if jol else {}
+            iso.add_fp(io.BytesIO(b''), n, '/BIG.;1', **kw)
+            iso.add_fp(io.BytesIO(b'x'), 1, '/SMALL.;1')
+            ctx.case(('multi-extent', k, tail, jol), True)
+            recs = [c for c in iso.pvd.root_directory_record().children[2:] if c.file_ident == b'BIG.;1']
+            flags = [bool(c.file_flags & 0x80) for c in recs]
+            chain = []
+            c = recs[0] if recs else None
+            while c is not None:
+                chain.append(c)
+                c = c.data_continuation
+            lens = [c.data_length for c in recs]
+            want_lens = [E] * (k - 1) + [tail or E]
+            if len(recs) != k or [id(x) for x in chain] != [id(x) for x in recs] or flags != [True] * (k - 1) + [False] or lens != want_lens:
+                ctx.violation('c07:multi-extent:chain', 'a file of %d bytes (%d extents) is recorded as %d records with lengths %s, '
+                              'multi-extent flags %s, continuation chain of %d records in %s order'
+                              % (n, k, len(recs), lens, flags, len(chain), 'record' if [id(x) for x in chain] == [id(x) for x in recs] else 'another'),
+                              {'length': n, 'joliet': jol})
+                iso.close()
+                continue
+            iso.rm_file('/BIG.;1')
+            left = [c.file_ident for c in iso.pvd.root_directory_record().children[2:]]
+            jl = [c.file_ident for c in iso.joliet_vd.root_directory_record().children[2:]] if jol else []
+            if left != [b'SMALL.;1'] or len(iso.inodes) != 1 or iso.pvd.space_size != base + 1 or jl:
+                ctx.violation('c07:multi-extent:rm_file-leftover', 'after rm_file of a %d-extent file: ISO9660 names %s, Joliet names %s, %d inodes, '
+                              'volume size %d sectors (expected %d)' % (k, left, jl, len(iso.inodes), iso.pvd.space_size, base + 1),
+                              {'length': n, 'joliet': jol})
+            iso.close()
+
+
 def run(ctx):
     global THEOREMS
     THEOREMS = _theorems()
@@ -91,6 +134,7 @@ def run(ctx):
     common.setup_impl_path()
     quick = ctx.tier == 'quick'
     probe_cases(ctx, 150 if quick else 2000, (6, 35) if quick else (10, 90))
+    multi_extent_oracle(ctx)
     # views in all namespaces after write+reopen, link-heavy histories, with and without generations
     from harness import recipes
     extra = []
